@@ -37,9 +37,8 @@ Step(e) ==
     CASE e.ev = "build" -> /\ tree' = e.tree
                            /\ ext' = e.ext
                            /\ ix' = BuildIx(e.tree, e.ext, Range(e.nss))
-                           /\ link' = [g \in DOMAIN ix'.near |->
-                                          IF \E s \in ix'.esites : s.tag = g THEN ix'.near[g] ELSE None]
-                           /\ tab' = [g \in {s.tag : s \in ix'.sites} |-> "none"]
+                           /\ link' = InitLink(ix')
+                           /\ tab' = InitTab(ix')
                            /\ cov' = {} /\ built' = {} /\ hist' = <<>>
       [] e.ev = "self"  -> ApplySelf(e.scope)
       [] e.ev = "ns"    -> ApplyNamespace(e.scope, e.ns, e.table)
@@ -65,7 +64,7 @@ Accepted ==
 AcceptedCallVR(e) ==
     (l > 1 /\ Trace[l - 1].ev # "build") =>
         \A p \in Range(Trace[l - 1].vr) :
-            /\ p[1] \in built
+            /\ p[1] \in built \cup ix.escopes
             /\ p[2] = VR(ScopeByTag(p[1]), link)
             /\ p[2] = AllLinkedUnder(p[1], link)
 
